@@ -27,6 +27,8 @@ CLAIMS = {
                 note=_NOTE, technique="symbolic execution of Sid(path=...) / path_to_dict / dict_to_path (CrossHair+z3) on path skeletons with symbolic holes"),
     "C14": dict(text=_X + ". Equality vs uri for natural and forced types, Sid==str, ordering by string, hash/set behaviour on a pool, and state snapshots before/after every public operation group with mutation of every returned container.",
                 note=_NOTE, technique="symbolic execution of __eq__/__lt__/fields/get_with/get_as/parent/... (CrossHair+z3) with state snapshots"),
+    "C08": dict(z=True, text=_X + ". The real FindInList.find / Sid.match run on lists of one or two fully symbolic entries for an enumerated set of searches, against a segment-wise glob reference over the reference unfolding; z3 proves the regex returned by the real glob2re equivalent to the reference glob language for every pattern up to length 3-4 over a 14-letter alphabet of metacharacters.",
+                note=_NOTE, technique="symbolic execution of FindInList.find/star_search/Sid.match (CrossHair+z3) with symbolic list entries; z3 regex language equivalence for glob2re"),
 }
 
 NOT_APPLICABLE = {}
